@@ -7,9 +7,9 @@ including repeated `nev_execute` calls on one VM (checks/c15.py).
 The frame discipline theorem below is the core of "each call uses no more VM stack than the
 first": a call frame built by MARK and popped by RET restores `fp`, `pp`, `gp` exactly and
 leaves precisely ONE slot (the result).  The entry stub of every module is
-`MARK; PUSH_PARAM; GLOBAL_VEC 0; ID_FUNC_ENTRY; CALL; HALT`, so every `nev_execute` returns with
-`sp = sp_before + 1`: `execute_restores_sp` is FALSE on the pinned tree, for every program
-(`execute_leaves_result_slot_counterexample`), which is the known finding replayed by the check.
+`MARK; PUSH_PARAM; GLOBAL_VEC 0; ID_FUNC_ENTRY; CALL; HALT`; on the pinned tree every `nev_execute`
+therefore returned with `sp = sp_before + 1` (`execute_leaves_result_slot_pinned`).  A `fix:` commit
+pops the result slot at VM_HALT; `execute_restores_sp` is now proved at full strength.
 -/
 namespace Never.C15
 open Never Never.Vm
@@ -45,9 +45,26 @@ theorem mark_ret_roundtrip (vm0 vm1 vm2 : Vm) (retAddr : Nat)
   · intro j hj
     exact rp.other j (by rw [hfp]; omega)
 
-/-- `execute_restores_sp` fails on the pinned tree for EVERY program: the entry stub's frame
-(MARK at `sp_before` … RET … HALT) leaves the result slot on the stack, `sp_after = sp_before + 1` -/
-theorem execute_leaves_result_slot_counterexample (vm0 vm1 vm2 : Vm) (retAddr : Nat)
+/-- **each `nev_execute` uses no VM stack beyond the call**: the entry stub's frame (MARK at `sp_before` … RET)
+nets one slot — the result — and the HALT epilogue pops it after copying the result out: `sp_after = sp_before`,
+for every program (full strength since the `fix:` commit 2088ed3) -/
+theorem execute_restores_sp (vm0 vm1 vm2 : Vm) (retAddr : Nat)
+    (hs0 : StackOk vm0) (h0 : -1 ≤ vm0.sp) (h1 : vm0.sp + 5 < vm0.stackSize)
+    (hm : markP vm0 retAddr = .ok vm1)
+    (hs2 : StackOk vm2) (hsz : vm2.stackSize = vm0.stackSize) (hfp : vm2.fp = vm0.sp + 5)
+    (hframe : ∀ k : Int, 1 ≤ k → k ≤ 5 → slot vm2 (vm0.sp + k) = slot vm1 (vm0.sp + k))
+    (hsp0 : 0 ≤ vm2.sp) (hsp : vm2.sp < vm2.stackSize) :
+    ∃ vm3, retP vm2 = .ok vm3 ∧ (haltEpilogue { vm3 with running := 0 }).sp = vm0.sp ∧
+      (haltEpilogue { vm3 with running := 0 }).fp = vm0.fp ∧ (haltEpilogue { vm3 with running := 0 }).pp = vm0.pp := by
+  obtain ⟨vm3, hr, hsp3, hfp3, hpp3, _⟩ := mark_ret_roundtrip vm0 vm1 vm2 retAddr hs0 h0 h1 hm hs2 hsz hfp hframe hsp0 hsp
+  refine ⟨vm3, hr, ?_, ?_, ?_⟩
+  · simp [haltEpilogue, hsp3]
+  · simp [haltEpilogue, hfp3]
+  · simp [haltEpilogue, hpp3]
+
+/-- the defect that was repaired: without the pop every call left its result slot behind,
+`sp_after = sp_before + 1` for every program (recorded as `fixed:`; checks/c15.py reports it again if it returns) -/
+theorem execute_leaves_result_slot_pinned (vm0 vm1 vm2 : Vm) (retAddr : Nat)
     (hs0 : StackOk vm0) (h0 : -1 ≤ vm0.sp) (h1 : vm0.sp + 5 < vm0.stackSize)
     (hm : markP vm0 retAddr = .ok vm1)
     (hs2 : StackOk vm2) (hsz : vm2.stackSize = vm0.stackSize) (hfp : vm2.fp = vm0.sp + 5)
